@@ -174,6 +174,7 @@ class tbl_getitem:
     properties = ('C09', 'C05', 'C06')
     params = {'self': 'Table', 'k': 'Union[int,str,None]'}
     pure = True
+    ret = 'Column'
 
     def raises_ColumnNotFoundError(self, k):
         return isinstance(k, str) and not any(c.name == k for c in self.columns)
